@@ -169,6 +169,16 @@ ExactlyOncePerMatch ==
           Cardinality({k \in 1..Len(s.begun) : s.begun[k] = <<i, j>>}) = 1
      /\ \A k \in 1..Len(s.begun) : s.begun[k][1] \in 1..Len(Run.matches)
                                     /\ s.begun[k][2] \in 1..Len(Run.matches[s.begun[k][1]].ms)
+\* (C01) blocks run stanza by stanza in file order and match by match in cursor order (strict); in the order of the
+\* merged query (lazy)
+BeginOrder ==
+  IF Run.mode = "lazy" THEN \A k \in 1..Len(s.begun) : s.begun[k] = <<Run.lorder[k][1], Run.lorder[k][2]>>
+  ELSE \A k \in 1..(Len(s.begun) - 1) :
+         \/ s.begun[k][1] < s.begun[k + 1][1]
+         \/ (s.begun[k][1] = s.begun[k + 1][1] /\ s.begun[k + 1][2] = s.begun[k][2] + 1)
+\* (C01) local variables never survive a match: a match starts with one empty block
+LocalsClearedPerMatch ==
+  (s.ph = "matches" /\ Len(s.ctl) = 1 /\ s.ctl[1].pc = 1) => s.ctl[1].vars = EmptyMap
 \* (C20) a failure inside a stanza always names the stanza, the matched node and a statement
 ErrorHasContext ==
   (s.status = "err" /\ s.err.kind \notin {"MissingGlobalVariable", "ExpectedList", "Unsupported"}) =>
